@@ -96,6 +96,7 @@ type Enc struct {
 	ptrParams []Term
 	ranges    map[*ssa.Range]*rangeState
 	rangeKeys map[*ssa.Next]Term
+	keyMemo   map[string]Term
 	// loop whose own write set must not record the current write (entry counter bumped at its header)
 	skipWriteFor *loopInfo
 	famSorts     map[string]string
